@@ -51,6 +51,10 @@ fn assignments() -> Vec<(&'static str, RVars)> {
         ("label_only", RVars { major: Some(10), pre: Some(("alpha", None)), dev: Some(9), bumped_branch: Some("Feat/0042_x".into()), bumped_commit_hash: Some("ABC".into()), custom: json!({"k": "Ab.01-x"}), ..Default::default() }),
         ("epoch_post", RVars { major: Some(4294967295), minor: Some(1), epoch: Some(7), post: Some(1), custom: json!({"k": {"a": 1}}), ..Default::default() }),
         // numbers PEP 440's 32-bit fields cannot hold: --output-format pep440 refuses them; the template variable must not print another number
+        // custom keys named exactly like the template's own variables, with those variables unset and set: a custom value never stands in for a variable
+        ("custom_named_like_variables_unset", RVars { major: Some(1), custom: json!({"major": 9, "minor": 4, "patch": 6, "epoch": 9, "post": 7, "dev": 8, "distance": 5, "dirty": true, "bumped_branch": "x", "bumped_commit_hash": "gabcdef0123", "bumped_timestamp": 1, "last_commit_hash": "gdef", "last_timestamp": 2, "last_branch": "lb", "semver": "9.9.9", "pep440": "9.9.9", "custom": "c", "pre_release": {"label": "rc", "number": 3}, "semver_obj": {"docker": "d"}, "current_timestamp": 3}), ..Default::default() }),
+        ("custom_named_like_variables_set", RVars { major: Some(1), minor: Some(2), patch: Some(3), epoch: Some(2), pre: Some(("rc", Some(4))), post: Some(5), dev: Some(6), distance: Some(7), dirty: Some(true), bumped_branch: Some("feature/x".into()), bumped_commit_hash: Some("g1a2b3c4d5e6f".into()), bumped_timestamp: Some(1709247600),
+            last_commit_hash: Some("g0000000aaaa".into()), last_timestamp: Some(1700000000), custom: json!({"major": 9, "post": 77, "dev": 88, "epoch": 99, "distance": 55, "dirty": false, "bumped_branch": "y", "semver": "9.9.9", "pep440": "9.9.9", "pre_release": {"label": "alpha", "number": 30}}), ..Default::default() }),
         ("wide_secondary", RVars { major: Some(1), minor: Some(0), patch: Some(0), epoch: Some(4294967296), pre: Some(("rc", Some(4294967296))), post: Some(4294967297), dev: Some(18446744073709551615), custom: json!({"k": 1}), ..Default::default() }),
     ]
 }
